@@ -4,7 +4,8 @@
    made so far; [handed_out] = the channels Wait has returned so far.                        *)
 From Coq Require Import List Arith ZArith Bool.
 From GT Require Import Base.Conc.
-From GT Require Import WGModel WGSpec WGInv WGProofs WGInv2 WGRefute.
+From GT Require Import Base.ConcIR.
+From GT Require Import WGModel WGSpec WGSpecProofs WGInv WGProofs WGInv2 WGRefute WGProg WGDenote.
 Import ListNotations.
 Local Open Scope Z_scope.
 
@@ -33,6 +34,28 @@ Qed.
    scheduled K_WAIT times in a row at rest has returned, and no call panics *)
 Theorem C02_monitor : forall progs sched, c02_ok (tr (wg_exec progs sched)) = true.
 Proof. exact c02_all. Qed.
+
+(* what the monitor means, for EVERY trace: acceptance implies the declarative statement c02_spec
+   (WGSpec.v): at every position no call has panicked; with no Add in flight the observed Count()
+   is the sum of the deltas, at sum 0 every channel handed out so far is observed closed, a Wait
+   returning there with sum > 0 returns a channel observed open; and no thread inside Wait has
+   just made K_WAIT consecutive steps, each with no Add in flight, without returning *)
+Theorem C02_monitor_sound : forall t, c02_ok t = true -> c02_spec t.
+Proof. exact c02_ok_spec. Qed.
+
+Theorem C02_declarative : forall progs sched, c02_spec (tr (wg_exec progs sched)).
+Proof. intros. apply c02_ok_spec. apply c02_all. Qed.
+
+(* and of the denotation of the IR of the current source (see C01_machine_is_denotation) *)
+Theorem C02_denoted : forall progs sched,
+  c02_ok (tr (dwg_exec hand_prog progs sched)) = true /\
+  (adds_in_flight (tr (dwg_exec hand_prog progs sched)) = [] ->
+   cnt (sh (dwg_exec hand_prog progs sched)) = sum_deltas (tr (dwg_exec hand_prog progs sched))).
+Proof.
+  intros progs sched. destruct (denote_current progs sched) as [-> ->]. split.
+  - apply c02_all.
+  - intro H. apply rest_count; [apply Inv_exec|exact H].
+Qed.
 
 (* Count() is a single load returning that count *)
 Theorem C02_count_call : forall cf tid todo,
@@ -84,6 +107,9 @@ Proof. eexists _, _. exact c02_orig_refuted_trace. Qed.
 
 Print Assumptions C02_rest.
 Print Assumptions C02_monitor.
+Print Assumptions C02_monitor_sound.
+Print Assumptions C02_declarative.
+Print Assumptions C02_denoted.
 Print Assumptions C02_count_call.
 Print Assumptions C02_wait_bounded.
 Print Assumptions C02_wait_from_call.
